@@ -76,7 +76,12 @@ func (c *c16) NumCases(tier string) int {
 
 func (c *c16) schedCap(tier string, nops int) int {
 	if tier == "thorough" {
-		return 4000
+		if nops <= 2 {
+			return 4000
+		}
+		// (a schedule of three operations with an expiry takes ~0.7 s of real timer waits: 800 of them are ~10 minutes per
+		// scenario; with the former 4000 a scenario ran for 45 minutes)
+		return 800
 	}
 	if nops <= 2 {
 		return 300
